@@ -134,10 +134,13 @@ PROPS = {
         "summary": ("Allocator half of 'runs do not influence each other': scratch_arena(conflict) never returns the conflicting arena "
                     "(so resolver tables and the runtime frame stacked on one scratch arena cannot free persistent data growing on the other), "
                     "ScratchArena::drop restores the offset seen at creation in LIFO order, scratch::init returns both global arenas to offset 0, "
-                    "and alloc_raw's result depends on (offset, request) only, never on commit history or memory contents."),
-        "not_covered": ("that the CLI prints exactly what the library pipeline computes, exit statuses, and stdin/--eval routing: whole-pipeline "
+                    "and alloc_raw's result depends on (offset, request) only, never on commit history or memory contents.  Standard-input route "
+                    "(Verus, unit stdin_source: the read loop of naija::cmd::run_stdin over a model of std::io::Read): the text handed to the "
+                    "pipeline is the WHOLE input for every way the OS splits it across reads, Interrupted retried, other errors a failure."),
+        "not_covered": ("that the CLI prints exactly what the library pipeline computes, exit statuses, file/--eval routing and which Runtime entry "
+                        "point the CLI calls: whole-pipeline "
                         "I/O equivalence has no callee-level statement a contract can carry (pipeline half not applicable to this technique)."),
-        "trusted_base": [KANI_TRUST, OS_TRUST],
+        "trusted_base": [KANI_TRUST, VERUS_TRUST, OS_TRUST],
     },
     "C17": {
         "level": "other",
